@@ -4,32 +4,31 @@ import (
 	vp "github.com/Tnze/go-mc/internal/zzvp"
 )
 
-
 type vpTarget struct {
-	A    int32            `nbt:"a"`
-	B    string           `nbt:"b"`
-	L    []int64          `nbt:"l"`
-	I    []int32          `nbt:"i"`
-	Y    []byte           `nbt:"y"`
-	In   vpInner          `nbt:"in"`
-	P    *vpInner         `nbt:"p"`
-	M    map[string]int8  `nbt:"m"`
-	Any  any              `nbt:"any"`
-	F    float32          `nbt:"f"`
-	Raw  RawMessage       `nbt:"raw"`
-	List []vpInner        `nbt:"list"`
-	Arr  [2]int32         `nbt:"arr"`
-	U    uint16           `nbt:"u"`
-	Bo   bool             `nbt:"bo"`
-	MS   map[string]any   `nbt:"ms"`
-	SL   [][]int16        `nbt:"sl"`
-	Str  []string         `nbt:"str"`
-	D    float64          `nbt:"d"`
-	Lg   int64            `nbt:"lg"`
-	Sh   int16            `nbt:"sh"`
-	By   int8             `nbt:"by"`
-	UI   []uint64         `nbt:"ui"`
-	Iany []any            `nbt:"iany"`
+	A    int32               `nbt:"a"`
+	B    string              `nbt:"b"`
+	L    []int64             `nbt:"l"`
+	I    []int32             `nbt:"i"`
+	Y    []byte              `nbt:"y"`
+	In   vpInner             `nbt:"in"`
+	P    *vpInner            `nbt:"p"`
+	M    map[string]int8     `nbt:"m"`
+	Any  any                 `nbt:"any"`
+	F    float32             `nbt:"f"`
+	Raw  RawMessage          `nbt:"raw"`
+	List []vpInner           `nbt:"list"`
+	Arr  [2]int32            `nbt:"arr"`
+	U    uint16              `nbt:"u"`
+	Bo   bool                `nbt:"bo"`
+	MS   map[string]any      `nbt:"ms"`
+	SL   [][]int16           `nbt:"sl"`
+	Str  []string            `nbt:"str"`
+	D    float64             `nbt:"d"`
+	Lg   int64               `nbt:"lg"`
+	Sh   int16               `nbt:"sh"`
+	By   int8                `nbt:"by"`
+	UI   []uint64            `nbt:"ui"`
+	Iany []any               `nbt:"iany"`
 	Mp   map[string]*vpInner `nbt:"mp"`
 }
 
